@@ -222,143 +222,158 @@ func scripted(c *harness.Ctx) {
 	}
 	c.Info("scripted op=%s retry=%d uncompressed=%v script=%v", op, retry, uncompressed, script)
 	c.LogInfo()
-	srv := newScripted(script, body)
-	defer srv.l.Close()
-	u, _ := url.Parse("http://" + srv.l.Addr().String() + "/")
-	opt := desync.StoreOptions{ErrorRetry: retry, ErrorRetryBaseInterval: time.Millisecond, Uncompressed: uncompressed, N: 1}
-	if stalls > 0 {
-		opt.Timeout = time.Second
-		c.Count("scripts_with_stalled_attempts", 1)
-	}
+	// One attempt at the script. The verdict of a script with stalled attempts depends on the client's clock (a busy
+	// machine can make an answered attempt look stalled): such a verdict is only reported when it shows again in two
+	// repetitions with a longer time-out - a defect of the client is a function of the script and shows every time.
+	var got, final string
+	var seen, attempts, budget int
+	try := func(timeout time.Duration) (string, string) {
+		srv := newScripted(script, body)
+		defer srv.l.Close()
+		u, _ := url.Parse("http://" + srv.l.Addr().String() + "/")
+		opt := desync.StoreOptions{ErrorRetry: retry, ErrorRetryBaseInterval: time.Millisecond, Uncompressed: uncompressed, N: 1}
+		if stalls > 0 {
+			opt.Timeout = timeout
+		}
 
-	// expected outcome from the script alone
-	budget := retry
-	if budget < 1 {
-		budget = 1
-	}
-	final := "" // "" = all transient within the budget
-	attempts := budget
-	for a := 0; a < budget; a++ {
-		el := "200"
-		if a < len(script) {
-			el = script[a]
+		// expected outcome from the script alone
+		budget = retry
+		if budget < 1 {
+			budget = 1
 		}
-		if !transient(el) {
-			final = el
-			attempts = a + 1
-			break
+		final = "" // "" = all transient within the budget
+		attempts = budget
+		for a := 0; a < budget; a++ {
+			el := "200"
+			if a < len(script) {
+				el = script[a]
+			}
+			if !transient(el) {
+				final = el
+				attempts = a + 1
+				break
+			}
 		}
-	}
-	want := "error"
-	switch final {
-	case "200":
-		want = "ok"
-	case "404":
-		want = "missing"
-		if op == "store" || op == "index-store" {
-			want = "error"
+		want := "error"
+		switch final {
+		case "200":
+			want = "ok"
+		case "404":
+			want = "missing"
+			if op == "store" || op == "index-store" {
+				want = "error"
+			}
 		}
-	}
-	got := ""
-	switch op {
-	case "get":
-		s, err := desync.NewRemoteHTTPStore(u, opt)
-		dsu.Must(err)
-		ch, err := s.GetChunk(id)
-		switch err.(type) {
-		case nil:
-			b, derr := ch.Data()
-			if derr != nil || !bytes.Equal(b, data) {
-				got = "wrong-data"
-			} else {
+		got = ""
+		switch op {
+		case "get":
+			s, err := desync.NewRemoteHTTPStore(u, opt)
+			dsu.Must(err)
+			ch, err := s.GetChunk(id)
+			switch err.(type) {
+			case nil:
+				b, derr := ch.Data()
+				if derr != nil || !bytes.Equal(b, data) {
+					got = "wrong-data"
+				} else {
+					got = "ok"
+				}
+			case desync.ChunkMissing:
+				got = "missing"
+			default:
+				got = "error"
+			}
+		case "has":
+			s, err := desync.NewRemoteHTTPStore(u, opt)
+			dsu.Must(err)
+			h, err := s.HasChunk(id)
+			switch {
+			case err != nil:
+				got = "error"
+			case h:
 				got = "ok"
-			}
-		case desync.ChunkMissing:
-			got = "missing"
-		default:
-			got = "error"
-		}
-	case "has":
-		s, err := desync.NewRemoteHTTPStore(u, opt)
-		dsu.Must(err)
-		h, err := s.HasChunk(id)
-		switch {
-		case err != nil:
-			got = "error"
-		case h:
-			got = "ok"
-		default:
-			got = "missing"
-		}
-	case "store":
-		s, err := desync.NewRemoteHTTPStore(u, opt)
-		dsu.Must(err)
-		if err := s.StoreChunk(desync.NewChunk(data)); err != nil {
-			got = "error"
-		} else {
-			got = "ok"
-		}
-	case "index-store":
-		s, err := desync.NewRemoteHTTPIndexStore(u, opt)
-		dsu.Must(err)
-		if err := s.StoreIndex("x.caibx", idx); err != nil {
-			got = "error"
-		} else {
-			got = "ok"
-			// what the server received with the accepted attempt must be the index
-			srv.mu.Lock()
-			last := srv.bodies[len(srv.bodies)-1]
-			srv.mu.Unlock()
-			if !bytes.Equal(last, idxBytes.Bytes()) {
-				c.Violation("index-store-body", "StoreIndex reported success (script %v, error-retry %d) but the accepted PUT carried %d bytes, the index has %d", script, retry, len(last), idxBytes.Len())
-				return
-			}
-		}
-	case "index":
-		s, err := desync.NewRemoteHTTPIndexStore(u, opt)
-		dsu.Must(err)
-		ix, err := s.GetIndex("x.caibx")
-		switch e := err.(type) {
-		case nil:
-			if len(ix.Chunks) != len(idx.Chunks) || ix.Length() != idx.Length() {
-				got = "wrong-data"
-			} else {
-				got = "ok"
-			}
-		case desync.NoSuchObject:
-			got = "missing"
-		default:
-			_ = e
-			got = "error"
-			if strings.Contains(err.Error(), "missing from store") {
+			default:
 				got = "missing"
 			}
+		case "store":
+			s, err := desync.NewRemoteHTTPStore(u, opt)
+			dsu.Must(err)
+			if err := s.StoreChunk(desync.NewChunk(data)); err != nil {
+				got = "error"
+			} else {
+				got = "ok"
+			}
+		case "index-store":
+			s, err := desync.NewRemoteHTTPIndexStore(u, opt)
+			dsu.Must(err)
+			if err := s.StoreIndex("x.caibx", idx); err != nil {
+				got = "error"
+			} else {
+				got = "ok"
+				// what the server received with the accepted attempt must be the index
+				srv.mu.Lock()
+				last := srv.bodies[len(srv.bodies)-1]
+				srv.mu.Unlock()
+				if !bytes.Equal(last, idxBytes.Bytes()) {
+					return "index-store-body", fmt.Sprintf("StoreIndex reported success (script %v, error-retry %d) but the accepted PUT carried %d bytes, the index has %d", script, retry, len(last), idxBytes.Len())
+				}
+			}
+		case "index":
+			s, err := desync.NewRemoteHTTPIndexStore(u, opt)
+			dsu.Must(err)
+			ix, err := s.GetIndex("x.caibx")
+			switch e := err.(type) {
+			case nil:
+				if len(ix.Chunks) != len(idx.Chunks) || ix.Length() != idx.Length() {
+					got = "wrong-data"
+				} else {
+					got = "ok"
+				}
+			case desync.NoSuchObject:
+				got = "missing"
+			default:
+				_ = e
+				got = "error"
+				if strings.Contains(err.Error(), "missing from store") {
+					got = "missing"
+				}
+			}
+		}
+		seen = srv.count()
+		if seen > budget {
+			return "too-many-attempts:" + op, fmt.Sprintf("error-retry=%d allows %d attempt(s), the server saw %d requests (script %v)", retry, budget, seen, script)
+		}
+		if got != want {
+			cls := "wrong-outcome"
+			switch {
+			case want == "ok" && got != "ok":
+				cls = "transient-run-visible"
+			case got == "missing":
+				cls = "failure-reported-as-missing"
+			case got == "ok":
+				cls = "failure-reported-as-success"
+			case want == "missing":
+				cls = "missing-reported-as-error"
+			}
+			return cls + ":" + op, fmt.Sprintf("op=%s error-retry=%d script=%v: the caller saw %q, the script determines %q (first non-transient response within %d attempts: %q); server saw %d requests", op, retry, script, got, want, budget, final, seen)
+		}
+		if seen != attempts {
+			return "attempt-count:" + op, fmt.Sprintf("script %v with error-retry=%d takes exactly %d attempt(s), the server saw %d", script, retry, attempts, seen)
+		}
+		return "", ""
+	}
+	cls, msg := try(time.Second)
+	if stalls > 0 {
+		c.Count("scripts_with_stalled_attempts", 1)
+		for r := 0; r < 2 && cls != ""; r++ {
+			c.Count("stalled_scripts_repeated_with_a_longer_timeout", 1)
+			cls, msg = try(4 * time.Second)
 		}
 	}
-	seen := srv.count()
 	c.Count("scripts", 1)
 	c.Count("requests_seen", int64(seen))
-	if seen > budget {
-		c.Violation("too-many-attempts:"+op, "error-retry=%d allows %d attempt(s), the server saw %d requests (script %v)", retry, budget, seen, script)
-		return
-	}
-	if got != want {
-		cls := "wrong-outcome"
-		switch {
-		case want == "ok" && got != "ok":
-			cls = "transient-run-visible"
-		case got == "missing":
-			cls = "failure-reported-as-missing"
-		case got == "ok":
-			cls = "failure-reported-as-success"
-		case want == "missing":
-			cls = "missing-reported-as-error"
-		}
-		c.Violation(cls+":"+op, "op=%s error-retry=%d script=%v: the caller saw %q, the script determines %q (first non-transient response within %d attempts: %q); server saw %d requests", op, retry, script, got, want, budget, final, seen)
-		return
-	}
-	if seen != attempts {
-		c.Violation("attempt-count:"+op, "script %v with error-retry=%d takes exactly %d attempt(s), the server saw %d", script, retry, attempts, seen)
+	if cls != "" {
+		c.Violation(cls, "%s", msg)
 		return
 	}
 	hostile := false
